@@ -602,12 +602,6 @@ func (f *FuncFacts) ifOf(b *ssa.BasicBlock) *ssa.If {
 }
 
 func (f *FuncFacts) loopCondAtom(b *ssa.BasicBlock, iff *ssa.If, succ int) (string, bool) {
-	if _, isHeader := f.loops[b]; !isHeader {
-		// rangeindex loops test in the header; "for" loops test in for.loop
-		if !strings.HasSuffix(b.Comment, ".loop") {
-			return "", false
-		}
-	}
 	body := false
 	for h, set := range f.loops {
 		if (h == b || set[b]) && set[b.Succs[succ]] && !set[b.Succs[1-succ]] {
